@@ -78,11 +78,15 @@ def deep_recursion_family():
                     src = "functie f(%s) { %sals n == 0 { antwoord %s } %s } f(%s)" % (", ".join(params), locs, base, expr, ", ".join(first))
                     out.append((src, m * depth + (2 * depth if p >= 2 else 5)))
     # the innermost activation calls a function that needs no slot at all, at every depth around the limit
-    for per, shape in ((2, "functie f(n) { als n == 0 { antwoord z() } f(n - 1) }"), (3, "functie f(n) { als n == 0 { antwoord z() } 1 + (f(n - 1)) }"),
-                       (2, "functie f(n) { als n == 0 { antwoord [z(), z()][1] } f(n - 1) }")):
+    shapes = []
+    for k in range(0, 4):
+        leaf = "1 + (" * k + "z()" + ")" * k
+        shapes.append((2, "functie f(n) { als n == 0 { antwoord %s } f(n - 1) }" % leaf, k, 0))
+        shapes.append((3, "functie f(n) { als n == 0 { antwoord %s } 1 + (f(n - 1)) }" % leaf, k, 1))
+    for per, shape, k, perlevel in shapes:
         for depth in list(range(65536 // per - 40, 65536 // per + 41)) + list(range(65536 // (per - 1) - 12, 65536 // (per - 1) + 13)):
             src = "functie z() { 3 } %s f(%d)" % (shape, depth)
-            out.append((src, 3 + (depth if per == 3 else 0)))
+            out.append((src, 3 + k + perlevel * depth))
     return out
 
 
